@@ -636,10 +636,11 @@ Proof.
   - intros [= <- <-]; auto.
 Qed.
 
-Lemma Inv_request_step script n fuel answers s c s' p :
-  Inv script n s -> request_step fuel answers s c = Done (s', p) -> Inv script n s'.
+Lemma Inv_request_step script n fuel no_keys answers s c s' p :
+  Inv script n s -> request_step fuel no_keys answers s c = Done (s', p) -> Inv script n s'.
 Proof.
-  intros (HD & HW & HL). unfold request_step. destruct fuel as [|f]; cbn; [discriminate|].
+  intros HI0. unfold request_step. destruct no_keys; [intros [= <- <-]; exact HI0|].
+  destruct HI0 as (HD & HW & HL). destruct fuel as [|f]; cbn; [discriminate|].
   assert (HI' : Inv script n (fst (poll_next (clear_woken c s) c))).
   { split; [apply data_inv_poll, data_inv_clear; auto|split].
     - eapply wake_inv_poll; [apply data_inv_clear; eauto|]. apply wake_inv_clear; auto.
@@ -655,8 +656,8 @@ Qed.
 Inductive reachable (script : list (sstep A)) (n : nat) : astate -> Prop :=
 | R_init : reachable script n (init script n)
 | R_step s a : reachable script n s -> reachable script n (step s a)
-| R_request s c fuel answers s' p :
-    reachable script n s -> request_step fuel answers s c = Done (s', p) -> reachable script n s'.
+| R_request s c fuel no_keys answers s' p :
+    reachable script n s -> request_step fuel no_keys answers s c = Done (s', p) -> reachable script n s'.
 
 Lemma reachable_Inv script n s : reachable script n s -> Inv script n s.
 Proof.
@@ -1061,16 +1062,23 @@ Proof.
   - intros [= <- <-]; auto.
 Qed.
 
+Lemma sync_inv_request_step src0 fuel no_keys answers c i c' r :
+  sync_inv src0 c -> request_sync_step fuel no_keys answers c i = Done (c', r) -> sync_inv src0 c'.
+Proof.
+  intros HI. unfold request_sync_step. destruct no_keys; [intros [= <- <-]; exact HI|].
+  intros H. eapply sync_inv_request; eauto.
+Qed.
+
 (* reachable caches: next() on the handles in any interleaving, and whole synchronous requests *)
 Inductive sreachable (src0 : list A) (n : nat) : cache -> Prop :=
 | S_init : sreachable src0 n (cache_new src0 n)
 | S_next c i : sreachable src0 n c -> sreachable src0 n (cache_step c i)
-| S_request c i fuel answers c' r :
-    sreachable src0 n c -> request_sync fuel answers c i = Done (c', r) -> sreachable src0 n c'.
+| S_request c i fuel no_keys answers c' r :
+    sreachable src0 n c -> request_sync_step fuel no_keys answers c i = Done (c', r) -> sreachable src0 n c'.
 
 Lemma sreachable_inv src0 n c : sreachable src0 n c -> sync_inv src0 c.
 Proof.
-  induction 1; [apply sync_inv_init|apply sync_inv_next; auto|eapply sync_inv_request; eauto].
+  induction 1; [apply sync_inv_init|apply sync_inv_next; auto|eapply sync_inv_request_step; eauto].
 Qed.
 
 Lemma cache_run_sreachable src0 n h : forall c, sreachable src0 n c -> sreachable src0 n (cache_run c h).
